@@ -4,6 +4,7 @@ import (
 	"fmt"
 	"go/constant"
 	"go/types"
+	"sort"
 	"strings"
 )
 
@@ -112,6 +113,25 @@ func (w *World) resolveType(pkg *types.Package, text string) (types.Type, string
 					_, ks := w.resolveType(pkg, text[5:i])
 					_, vs := w.resolveType(pkg, text[i+1:])
 					return nil, arraySort(ks, vs)
+				}
+			}
+		}
+	}
+	if strings.HasPrefix(text, "map[") {
+		depth := 0
+		for i := 3; i < len(text); i++ {
+			switch text[i] {
+			case '[':
+				depth++
+			case ']':
+				depth--
+				if depth == 0 {
+					kt, _ := w.resolveType(pkg, text[4:i])
+					vt, _ := w.resolveType(pkg, text[i+1:])
+					if kt == nil || vt == nil {
+						panic(specErr{"map type needs Go types: " + text})
+					}
+					return types.NewMap(kt, vt), "Int"
 				}
 			}
 		}
@@ -631,6 +651,83 @@ func (e *Env) call(n *SCall) SVal {
 		hd, od := heapGet(e.s, e.heap, dom, false), heapGet(e.s, e.old.heap, dom, false)
 		hv, ov := heapGet(e.s, e.heap, val, false), heapGet(e.s, e.old.heap, val, false)
 		return SVal{t: mkAnd(mkEq(mkSelect(hd, at), mkSelect(od, at)), mkEq(mkSelect(hv, at), mkSelect(ov, at))), gt: boolT}
+	case "reached":
+		id, ok := n.Args[0].(*SIdent)
+		if !ok {
+			e.fail("reached(label)")
+		}
+		_, has := e.s.labels[id.Name]
+		return SVal{t: boolLit(has), gt: boolT}
+	case "at":
+		id, ok := n.Args[0].(*SIdent)
+		if !ok {
+			e.fail("at(label, expr)")
+		}
+		sn, has := e.s.labels[id.Name]
+		if !has {
+			// label not on this path: evaluate in the entry state; callers guard with reached()
+			if e.old == nil {
+				e.fail("at() needs a pre-state")
+			}
+			oe := *e.old
+			oe.vars = e.vars
+			v := oe.eval(n.Args[1])
+			return SVal{t: oe.rv(v), gt: v.gt}
+		}
+		le := e.withHeap(sn.heap, sn.ghost, sn.alloc)
+		le.vars = e.vars
+		v := le.eval(n.Args[1])
+		return SVal{t: le.rv(v), gt: v.gt}
+	case "sameSince":
+		// sameSince(label, locs...): objects that existed at the label are untouched in the given arrays
+		id, ok := n.Args[0].(*SIdent)
+		if !ok {
+			e.fail("sameSince(label, locs...)")
+		}
+		sn, has := e.s.labels[id.Name]
+		if !has {
+			return SVal{t: tTrue, gt: boolT}
+		}
+		var cs []Term
+		for _, a := range n.Args[1:] {
+			for _, arr := range e.s.x.resolveLocs(e.pkg, []string{specText(a)}) {
+				if strings.HasPrefix(arr, "$") {
+					cs = append(cs, mkEq(e.ghostNow(arr), ghostIn(e.s, sn.ghost, arr)))
+					continue
+				}
+				cur := heapGet(e.s, e.heap, arr, false)
+				old := heapGet(e.s, sn.heap, arr, false)
+				if cur.S == old.S {
+					continue
+				}
+				e.s.x.counter++
+				r := fmt.Sprintf("r!s%d", e.s.x.counter)
+				cs = append(cs, Term{fmt.Sprintf("(forall ((%s Int)) (=> (and (< 0 %s) (<= %s %s)) (= (select %s %s) (select %s %s))))", r, r, r, sn.alloc.S, cur.S, r, old.S, r), "Bool"})
+			}
+		}
+		return SVal{t: mkAnd(cs...), gt: boolT}
+	case "unchangedAll":
+		// every heap array is as at function entry on pre-existing objects
+		if e.old == nil {
+			e.fail("unchangedAll needs a pre-state")
+		}
+		var cs []Term
+		var names []string
+		for n := range e.heap {
+			names = append(names, n)
+		}
+		sort.Strings(names)
+		for _, arr := range names {
+			cur := e.heap[arr]
+			old := heapGet(e.s, e.old.heap, arr, false)
+			if cur.S == old.S {
+				continue
+			}
+			e.s.x.counter++
+			r := fmt.Sprintf("r!s%d", e.s.x.counter)
+			cs = append(cs, Term{fmt.Sprintf("(forall ((%s Int)) (=> (and (< 0 %s) (<= %s %s)) (= (select %s %s) (select %s %s))))", r, r, r, e.old.alloc.S, cur.S, r, old.S, r), "Bool"})
+		}
+		return SVal{t: mkAnd(cs...), gt: boolT}
 	case "unchanged":
 		// unchanged(T.f, ...) : the heap arrays are the same as in the pre-state
 		if e.old == nil {
@@ -741,6 +838,17 @@ func (e *Env) applySpecFunc(fd *specFuncDecl, args []SVal) SVal {
 	gt, rs := w.resolveType(fd.pkg, fd.Result)
 	e.s.x.usedSpecs[fd.Name] = true
 	return SVal{t: app(rs, q(fd.Name), ts...), gt: gt}
+}
+
+func (e *Env) ghostNow(name string) Term {
+	return e.ident(name).t
+}
+
+func ghostIn(s *State, g map[string]Term, name string) Term {
+	if t, ok := g[name]; ok {
+		return t
+	}
+	return s.declare(name+"@0", s.x.ghostVars[name])
 }
 
 // mapLen is the cardinality of a map domain (uninterpreted, axiomatised).
